@@ -13,6 +13,9 @@ table obligation can therefore be replayed by execution.
 """
 import re
 
+import sqlstd
+from extract import ExtractionError
+
 GEN_EXPR = "prqlc/prqlc/src/sql/gen_expr.rs"
 RQ_EXPR = "prqlc/prqlc/src/ir/rq/expr.rs"
 LR = "prqlc/prqlc-parser/src/lexer/lr.rs"
@@ -95,6 +98,16 @@ pub open spec fn infix_operand_ok(p: Cls, pop: Option<BinaryOperator>, c: Cls, c
     || (left && closed_right)
     || (level(c) == level(p) && left)
     || (level(c) == level(p) && !left && pop is Some && cop is Some && reassoc_safe(pop->0, cop->0))
+}
+
+// operand of a prefix operator (`NOT x`, `-x`): anything that binds tighter; NOT NOT x is fine, `--x` is a comment
+pub open spec fn prefix_operand_ok(p: Cls, c: Cls) -> bool {
+    level(c) > level(p) || (p == Cls::Not && c == Cls::Not)
+}
+
+// an s-string hole `{x:N}` passes its argument to translate_operand(arg, false, N, Both): bare iff strength >= N
+pub open spec fn hole_bare(child_strength: int, n: int) -> bool {
+    !rule_needs(child_strength, false, n, Associativity::Both)
 }
 
 // the documented parenthesisation rule of needs_parentheses (its doc comment), over plain integers
@@ -252,6 +265,9 @@ def build(X):
     """)
 
     L, labels = table_rows()
+    L2, labels2, skipped = template_rows(X)
+    L = L + L2
+    build.skipped_templates = skipped
     # one proof fn per row, so that every failing row is reported (and can be matched against known findings) separately
     table = "\n".join("proof fn np2_row_%d() {\n%s\n}" % (i, l) for i, l in enumerate(L)) + "\n"
 
@@ -327,12 +343,19 @@ def child_rows():
     for c in BINOPS:
         rows.append((c, "(BinaryOperator::%s).spec_binding_strength() as int" % c, "Cls::%s" % CLS_OF[c],
                      "Some(BinaryOperator::%s)" % c, "false"))
+    # other multiplicative operators (reached through the div_f / div_i / mod templates; canonical strength and
+    # operator identity from sqlparser's table) -- they matter for the re-association rows
+    for c in ("Divide", "Modulo"):
+        rows.append((c, "(BinaryOperator::%s).spec_binding_strength() as int" % c, "Cls::Mul", "Some(BinaryOperator::%s)" % c, "false"))
     # Expr-level children whose strength comes from `impl SQLExpression for Expr`
     rows.append(("IsNull", "expr_strength_IsNull()", "Cls::EqGrp", "None", "false"))
     rows.append(("IsNotNull", "expr_strength_IsNotNull()", "Cls::EqGrp", "None", "false"))
     rows.append(("Between", "expr_strength_Between()", "Cls::EqGrp", "None", "false"))
     rows.append(("InList", "expr_strength_InList()", "Cls::EqGrp", "None", "true"))
     rows.append(("Nested", "expr_strength_Nested()", "Cls::Atom", "None", "true"))
+    # prefix operators (emitted through the `not` / `neg` templates; canonical strength = sqlparser UnaryOperator table)
+    rows.append(("Not", "(UnaryOperator::Not).spec_binding_strength() as int", "Cls::Not", "None", "false"))
+    rows.append(("Neg", "(UnaryOperator::Minus).spec_binding_strength() as int", "Cls::Neg", "None", "false"))
     return rows
 
 
@@ -356,6 +379,69 @@ def table_rows():
             L.append("    assert(site_ok(%s, true, expr_strength_%s(), Associativity::Both, "
                      "infix_operand_ok(Cls::EqGrp, None, %s, %s, %s, true))); // @%s" % (cstr, par, ccls, cop, closed, lab))
     return L, labels
+
+
+def template_rows(X):
+    """Table anchor std.sql.prql -> (assert lines, labels).  Child rows of templates are added to the NP2 tables;
+    every operator-adjacent hole gets one row per child class (NP4)."""
+    text = X.read(STD_SQL)
+    funcs = [f for f in sqlstd.parse(text)]
+    scoped = [f for f in funcs if sqlstd.in_scope(f)]
+    skipped = [f.key for f in funcs if f.body is not None and not sqlstd.in_scope(f)]
+    need = {"std.div_f", "std.mod", "std.neg", "std.not", "std.div_i", "sqlite.div_f", "sqlite.div_i"}
+    have = {f.key for f in scoped}
+    if not need <= have:
+        raise ExtractionError("std.sql.prql: expected operator templates missing: %s" % sorted(need - have))
+    L, labels = [], []
+    # NP4s: a template's declared strength never exceeds the canonical code strength of the weakest operator at depth 0
+    # of its text (then, by monotonicity of the rule, it is parenthesised at least whenever the canonical child is)
+    canon = {"Mul": "(BinaryOperator::Multiply)", "Add": "(BinaryOperator::Plus)", "EqGrp": "(BinaryOperator::Eq)",
+             "Rel": "(BinaryOperator::Gt)", "And": "(BinaryOperator::And)", "Or": "(BinaryOperator::Or)",
+             "Concat": "(BinaryOperator::StringConcat)", "Not": "(UnaryOperator::Not)", "Neg": "(UnaryOperator::Minus)"}
+    for f in scoped:
+        tc = sqlstd.top_class(f.body)
+        if tc == "Atom":
+            continue
+        s_decl = int(f.ann.get("binding_strength", 100))
+        if f.ann.get("coalesce") is not None:
+            # translate_operator wraps the text in COALESCE(..) outside window functions (atom); inside a window
+            # function the declared strength applies, so the row is still required
+            pass
+        lab = "NP4s.%s" % f.key.replace(".", "_")
+        labels.append(lab)
+        L.append("    assert(%d <= %s.spec_binding_strength()); // @%s" % (s_decl, canon[tc], lab))
+    children = child_rows()
+    # NP4 rows: holes
+    for f in scoped:
+        s_decl = int(f.ann.get("binding_strength", 100))
+        toks = sqlstd.tokenize(f.body)
+        for hi, h in enumerate(sqlstd.holes(f.body)):
+            if h.delimited:
+                continue
+            n = h.strength if h.strength is not None else s_decl
+            conds = []
+            if h.right_op:
+                conds.append(lambda ccls, cop, closed, o=h.right_op:
+                             "infix_operand_ok(Cls::%s, None, %s, %s, %s, true)" % (sqlstd.OP_CLASS[o], ccls, cop, closed))
+            if h.left_op:
+                prefix = (h.left_op == "NOT") or (h.left_op == "-" and toks[0] == ("op", "-") and hi == 0)
+                if prefix:
+                    pc = "Not" if h.left_op == "NOT" else "Neg"
+                    conds.append(lambda ccls, cop, closed, pc=pc: "prefix_operand_ok(Cls::%s, %s)" % (pc, ccls))
+                else:
+                    conds.append(lambda ccls, cop, closed, o=h.left_op:
+                                 "infix_operand_ok(Cls::%s, None, %s, %s, %s, false)" % (sqlstd.OP_CLASS[o], ccls, cop, closed))
+            for (cname, cstr, ccls, cop, closed) in children:
+                lab = "NP4.%s.%s%d.%s" % (f.key.replace(".", "_"), h.name, hi, cname)
+                labels.append(lab)
+                L.append("    assert(hole_bare(%s, %d) ==> (%s)); // @%s"
+                         % (cstr, n, " && ".join(c(ccls, cop, closed) for c in conds), lab))
+    return L, labels, skipped
+
+
+def DYNAMIC_LABELS():
+    import extract
+    return template_rows(extract.Extractor())[1]
 
 
 LABELS = ["AS1", "AS2", "TW1", "TW2", "NP1", "WP1", "WP2", "TO1", "IA1", "TB1", "NP5eq", "NP5ne"] + table_rows()[1]
